@@ -12,7 +12,9 @@ RULE = ("subsets and orderings of announced mechanisms (including none, unknown 
 SUPPORTED = ["DIGEST-MD5", "PLAIN", "LOGIN", "OAUTHBEARER"]
 ANNOUNCE = ["PLAIN", "LOGIN", "OAUTHBEARER", "DIGEST-MD5", "SCRAM-SHA-1", "GSSAPI", "XOAUTH2", "PLAIN-CLIENTTOKEN", "X-LOGIN-TICKET", "XOAUTHBEARER2", "plain"]
 CREDS = [("user", "pw", ""), ("üser@exämple.org", "pässwörd€", ""), ("Doe, John", "a=b,c", "admin"), ("a=b", "tok en", ""), ('q"uote', 'p"w\\', "authz id"),
-         ("", "", ""), ("u" * 70, "p" * 90, "z"), ("user", "tok=en==", "")]
+         ("", "", ""), ("u" * 70, "p" * 90, "z"), ("user", "tok=en==", ""),
+         # coinciding fields: each must still be sent, in its own place
+         ("user", "pw", "user"), ("same", "same", "same"), ("User", "pw", "user"), ("u", "pw", "pw"), ("üser", "üser", "")]
 
 
 def expected_mech(authmech, announced):
@@ -71,10 +73,19 @@ def run(ctx):
             combos.append(list(sub))
     r.shuffle(combos)
     combos = combos[: (70 if ctx.tier == "quick" else 700)] + [["DIGEST-MD5", "PLAIN"], ["PLAIN"], ["LOGIN"], ["OAUTHBEARER"], []]
+    cases = []
+    # every credential triple through every working mechanism, forced and unforced (directed, independent of the seed)
+    for cred in CREDS:
+        for m in ("PLAIN", "LOGIN", "OAUTHBEARER"):
+            cases.append(([m], m, cred))
+            cases.append(([m, "GSSAPI"], None, cred))
     for ann in combos:
         r.shuffle(ann)
         for authmech in r.sample([None, "PLAIN", "LOGIN", "OAUTHBEARER", "DIGEST-MD5", "GSSAPI", "plain"], 3):
-            login, pw, authz = r.choice(CREDS)
+            cases.append((ann, authmech, r.choice(CREDS)))
+    for ann, authmech, cred in cases:
+        if True:
+            login, pw, authz = cred
             accept = r.random() < 0.7
             sasl = " ".join(ann).encode()
             variant = r.random()
